@@ -36,7 +36,7 @@ impl std::fmt::Display for Mir {
 impl std::fmt::Display for Argument {
     fn fmt(&self, f: &mut std::fmt::Formatter<'_>) -> std::fmt::Result {
         let Argument(label, t) = self;
-        write!(f, "arg {}: {}", label.0, t.to_type())
+        write!(f, "arg {}: {}", label, t.to_type())
     }
 }
 
